@@ -21,7 +21,7 @@ func fieldStores(fn *ssa.Function, base ssa.Value, name string) []*ssa.Store {
 			return
 		}
 		s := fa.X.Type().Underlying().(*types.Pointer).Elem().Underlying().(*types.Struct)
-		if s.Field(fa.Field).Name() == name {
+		if fname(s.Field(fa.Field)) == name {
 			out = append(out, st)
 		}
 	})
@@ -122,7 +122,7 @@ func ruleBitList(c *Ctx) {
 						case *ssa.UnOp:
 							if fa, ok := x.X.(*ssa.FieldAddr); ok && x.Op == token.MUL {
 								s := fa.X.Type().Underlying().(*types.Pointer).Elem().Underlying().(*types.Struct)
-								if s.Field(fa.Field).Name() == "count" && !body.Dominates(x.Block()) {
+								if fname(s.Field(fa.Field)) == "count" && !body.Dominates(x.Block()) {
 									inLoop = false
 								}
 							}
